@@ -155,9 +155,8 @@ func NewTree() *BPTree {
 	return &BPTree{LastAddress: 0, keyPosMap: make(map[string]int64), enabledKeyPosMap: false}
 }
 
-var queue *Node
-
-func enqueue(node *Node) {
+// enqueue appends node to the queue that starts at queue and returns the queue's head.
+func enqueue(queue *Node, node *Node) *Node {
 	var c *Node
 
 	if queue == nil {
@@ -171,13 +170,16 @@ func enqueue(node *Node) {
 		c.Next = node
 		node.Next = nil
 	}
+
+	return queue
 }
 
-func dequeue() *Node {
+// dequeue returns the first node of the queue and the rest of the queue.
+func dequeue(queue *Node) (*Node, *Node) {
 	n := queue
 	queue = queue.Next
 
-	return n
+	return n, queue
 }
 
 // FindLeaf returns leaf at the given key.
@@ -333,12 +335,12 @@ func (t *BPTree) WriteNodes(rwMode RWMode, syncEnable bool, flag int) error {
 		return err
 	}
 
-	queue = nil
+	var queue *Node
 
-	enqueue(t.root)
+	queue = enqueue(queue, t.root)
 
 	for queue != nil {
-		n = dequeue()
+		n, queue = dequeue(queue)
 
 		_, err := t.WriteNode(n, -1, syncEnable, fd)
 		if err != nil {
@@ -349,7 +351,7 @@ func (t *BPTree) WriteNodes(rwMode RWMode, syncEnable bool, flag int) error {
 			if !n.isLeaf {
 				for i = 0; i <= n.KeysNum; i++ {
 					c, _ := n.pointers[i].(*Node)
-					enqueue(c)
+					queue = enqueue(queue, c)
 				}
 			}
 		}
